@@ -85,6 +85,10 @@ def report(pid):
         lines = _lines(code)
         hit = lines & _hits.get(path, set())
         out[item] = {"lines": len(lines), "hit": len(hit), "missed": sorted(lines - hit)}
+    dump = os.environ.get("VERIF_COVDUMP")
+    if dump:       # diagnostic: every line of the package the cases reached (tools/package_report.py)
+        with open(dump, "w") as fh:
+            json.dump({k: sorted(v) for k, v in _hits.items()}, fh)
     total = sum(v.get("lines", 0) for v in out.values())
     got = sum(v.get("hit", 0) for v in out.values())
     return {"functions": out, "lines": total, "hit": got}
